@@ -136,6 +136,32 @@ def _build(ctx, where, pr, pphi, plam, reuse):
         if reuse:
             c.ps(0, pphi)
         return c
+    if where == "param-then-heralded":
+        # parameterised components first, a heralded sub-circuit afterwards: the parent's own
+        # spec is rewritten when the ancilla is inserted
+        c = lw.Circuit(3)
+        c.bs(0, reflectivity=pr)
+        c.ps(1, pphi, loss=plam)
+        sub = lw.Circuit(2)
+        sub.bs(0)
+        sub.herald(0, 1)
+        c.add(sub, 1)
+        if reuse:
+            c.bs(1, reflectivity=pr, convention="H")
+        return c
+    if where == "param-sub-across-ancilla":
+        # a parameterised, un-heralded sub-circuit added across an ancilla of the parent
+        c = lw.Circuit(3)
+        sub = lw.Circuit(2)
+        sub.bs(0)
+        sub.herald(0, 0)
+        c.add(sub, 1)
+        inner = lw.Circuit(3)
+        inner.bs(0, 2, reflectivity=pr)
+        inner.ps(1, pphi)
+        inner.loss(2, plam)
+        c.add(inner, 0, group=bool(reuse))
+        return c
     if where == "nested":
         i1 = lw.Circuit(2)
         i1.bs(0, reflectivity=pr)
@@ -185,7 +211,7 @@ def h_live(ctx, where, reuse):
 
 
 def live_cases(tier):
-    return [dict(where=w, reuse=r) for w in ("plain", "group", "heralded", "nested") for r in (False, True) if not (w == "nested" and r)]
+    return [dict(where=w, reuse=r) for w in ("plain", "group", "heralded", "nested", "param-then-heralded", "param-sub-across-ancilla") for r in (False, True) if not (w == "nested" and r)]
 
 
 def h_invalid_value(ctx, which, side):
